@@ -76,6 +76,11 @@ def gen_job(verif_seed, tier, index):
         members.append({"dim": "relabel", "hashseed": e.choice(histgen.PALETTE), "ops": [op], "observe": 0})
         hist = _history(g, None, None)
         members.append({"dim": "history", "hashseed": e.choice(histgen.PALETTE), "ops": hist + [base], "observe": len(hist)})
+        # earlier call in the process on ANOTHER peptide with explicit terminal modifications (-mods)
+        rg2 = histgen.protein_graph(g)
+        early = histgen.protein_op(g, rg2, out="h.itp")
+        early["mods"] = [[f"{rg2['resnames'][0]}1", "NH2-ter"], [f"{rg2['resnames'][-1]}{len(rg2['resnames'])}", "COOH-ter"]]
+        members.append({"dim": "history", "hashseed": e.choice(histgen.PALETTE), "ops": [early, base], "observe": 1})
         return {"index": index, "run_seed": seed, "members": members, "lib": True, "protein": True}
     if g.random() < 0.2:
         # a quarter of the library families have a base job that must be refused (block of another library):
